@@ -887,6 +887,13 @@ def _to_c_expr(
                 return _fold([emit(arg) for arg in n.args])
             if n.keywords:
                 raise ValueError("unsupported keyword arguments in call")
+            if ctx is not None and fname in ctx.get("functions", {}):
+                # wherever a helper call is emitted (conditions, arguments, nested
+                # expressions) a variant for its argument types must exist
+                try:
+                    _infer_arg_type(n)
+                except ValueError:
+                    pass
             args_rendered = ", ".join(emit(arg) for arg in n.args)
             return f"{fname}({args_rendered})"
 
